@@ -378,6 +378,16 @@ example : asSamplesF (.iterOf [.dict [(C01Witness.a, (1 : Rat)), (C01Witness.b, 
                                 .sampleset [[3, 4], [5, 6]] [C01Witness.b, C01Witness.a]])
     = .ok ([[1, 2], [4, 3], [6, 5]], [C01Witness.a, C01Witness.b]) := by decide +kernel
 
+/-- the element hypothesis of `as_samples_iterator_any_elements` is met by a concrete mixed iterator (a dict, then a two-row SampleSet
+    with the columns in the other order): both elements deliver their own values -/
+example : ∀ s ∈ ([.dict [(C01Witness.a, (1 : Rat)), (C01Witness.b, 2)], .sampleset [[3, 4], [5, 6]] [C01Witness.b, C01Witness.a]] : List (SL Rat)),
+    ∀ rs ls, asSamples s = .ok (rs, ls) → Delivers s rs ls := by
+  intro s hs rs ls h
+  simp only [List.mem_cons, List.not_mem_nil, or_false] at hs
+  rcases hs with rfl | rfl
+  · exact delivers_dict _ (by decide) rs ls h
+  · exact delivers_sampleset _ _ (by decide) (by decide) rs ls h
+
 /-- +128 as the largest magnitude: `int16` is chosen and 128 stays 128; −128 with 127: `max_` is 128 as well -/
 example : sampleArrayInt [[128, -5]] = .ok (16, [[128, -5]]) ∧ sampleArrayInt [[-128, 127]] = .ok (16, [[-128, 127]]) ∧
     sampleArrayInt [[127, -127]] = .ok (8, [[127, -127]]) ∧ sampleArrayInt [[2147483648]] = .ok (64, [[2147483648]]) := by decide +kernel
